@@ -61,4 +61,13 @@ CHECKS = {
         note=COMMON_NOTE + " exhaustive: true for the gate space.",
         technique="TLA+ Gate/Registry state machine, TLC complete enumeration replayed into ValidateInputs/GetOperator",
         design_ref="DESIGN.md section 6 (C15)"),
+    "C04": dict(
+        text="Bounded-exhaustive: TLC enumerates operand shape pairs for MatMul (all rank combinations incl. vectors, broadcast and "
+             "non-broadcastable batches, unit matrix dimensions), Gemm configurations (transposes, alpha/beta incl. 0, -1, 1/2, every C "
+             "broadcast kind and invalid C), LinearRegressor and Scaler layouts, and computes the exact algebraic result on integer ids "
+             "from spec/OpLinear.tla (numpy.matmul definition); compared exactly in three execution modes; float32 must compute, other "
+             "dtypes may be refused but never answered differently.",
+        note=COMMON_NOTE + " The 'within rounding error' clause is decided only on exactly representable data.",
+        technique="TLA+ operator semantics + TLC BFS case enumeration, replayed into operator API and Model.Run; defect model for the known finding",
+        design_ref="DESIGN.md section 6 (C04)"),
 }
